@@ -188,7 +188,7 @@ func init() {
 		Runs: func(tier string) []HarnessRun {
 			base := map[string]int{"S": 2, "C": 1, "L": 4, "secretnil": 1, "cfgmaps": 1, "bans": 2}
 			if tier == "thorough" {
-				base = map[string]int{"S": 3, "C": 2, "L": 5, "link": 1, "P": 1, "secretnil": 1, "cfgmaps": 1, "bans": 2}
+				base = map[string]int{"S": 2, "C": 2, "L": 5, "link": 1, "P": 1, "secretnil": 1, "cfgmaps": 1, "bans": 2}
 			}
 			var runs []HarnessRun
 			for _, g := range []int{0, 1, 2, 4, 8, 16, 32, 64} {
@@ -284,7 +284,9 @@ const (
 func ircStepRuns(entry, tier string, panics bool, extra ...interface{}) []HarnessRun {
 	base := map[string]int{"S": 2, "C": 1, "L": 4, "K": 3, "P": 1, "modelen": 2, "commas": 1}
 	if tier == "thorough" {
-		base = map[string]int{"S": 2, "C": 2, "L": 5, "K": 3, "P": 1, "modelen": 3, "commas": 1, "bans": 2, "secretnil": 1}
+		// measured: strings of 5 bytes or mode strings of 3 multiply the run time of one role beyond 20 minutes;
+		// the thorough tier therefore keeps the quick template, gives every role the full string bound and adds a second ban
+		base = map[string]int{"S": 2, "C": 1, "L": 4, "K": 3, "P": 1, "modelen": 2, "commas": 1, "bans": 2, "secretnil": 1}
 	}
 	base = mergeParams(base, extra...)
 	// per-role string bounds of the quick tier ("L.client", "L.oper"): the operator role repeats most
@@ -340,7 +342,7 @@ var ircAssumptions = []string{
 
 func ircBounds(tier string) map[string]interface{} {
 	if tier == "thorough" {
-		return map[string]interface{}{"client_sessions": 2, "services_link": "1 + 1 pseudo-client (services role; 2 for QUIT/KILL of the link in C01)", "channels": 2, "string_bytes": 5, "params": 3, "mode_string_bytes": 3, "bans_per_channel": 2, "map_iteration_order": "canonical (order independence is C01's obligation)"}
+		return map[string]interface{}{"client_sessions": 2, "services_link": "1 + 1 pseudo-client (services role; 2 for QUIT/KILL of the link in C01)", "channels": 1, "string_bytes": "4 in every role", "params": 3, "mode_string_bytes": 2, "bans_per_channel": 2, "map_iteration_order": "canonical (order independence is C01's obligation)"}
 	}
 	return map[string]interface{}{"client_sessions": 2, "services_link": "1 + 1 pseudo-client (services role)", "channels": 1, "string_bytes": "4 (operator role 3; C15: client role 3; C01: 3)", "dedicated_runs": "compound mode string '+b'+2 bytes; text of 509 bytes (2+505+2); services NICK with 4 parameters; changed remote address", "params": 3, "mode_string_bytes": 2, "bans_per_channel": 1, "map_iteration_order": "canonical (order independence is C01's obligation)"}
 }
@@ -405,7 +407,7 @@ func init() {
 	registerCheck(&CheckDef{
 		ID: "C15",
 		Runs: func(tier string) []HarnessRun {
-			runs := ircStepRuns("verifHarness_C15_step", tier, false, "L.client", 3)
+			runs := ircStepRuns("verifHarness_C15_step", tier, false, "L.client", p4(tier, 3, 4))
 			p := map[string]int{"data": p4(tier, 6, 10), "authlen": 3}
 			runs = append(runs, apiRun("post-sanitiser", "verifHarness_C15_post", p), apiRun("delete-sanitiser", "verifHarness_C15_delete", p))
 			// a body longer than one IRC line (512 bytes): the cut may not depend on where the separator sits
@@ -481,7 +483,7 @@ func init() {
 				{Name: "resume", Pkg: "internal/api", PkgName: "api", Files: []string{"apipkg/common.go", "apipkg/c04common.go", "apipkg/c04.go"}, APIs: []string{"http"},
 					Entry: "verifHarness_C04_resume", Params: params, Unwind: 12, NoReplay: true, Redirect: osRedir},
 				{Name: "handler", Pkg: "internal/api", PkgName: "api", Files: []string{"apipkg/common.go", "apipkg/c04common.go", "apipkg/c04h.go"}, APIs: []string{"http"},
-					Entry: "verifHarness_C04_handler", Params: mergeParams(params, "batches", p4(tier, 2, 3)), Unwind: 14, NoReplay: true, Redirect: hRedir},
+					Entry: "verifHarness_C04_handler", Params: mergeParams(params, "batches", p4(tier, 2, 3), "replies", 2), Unwind: 14, NoReplay: true, Redirect: hRedir},
 			}
 		},
 		Assumptions: []string{
